@@ -343,6 +343,9 @@ def _distance(ck, p):
     # the recurrence: inner-loop store into a row built from min/min and +1/+1/+cost
     mins = [t for _, t in f.calls() if _m(t) == "min"]
     eqs = [sx for b in f.blocks if not b["cleanup"] for sx in b["s"] if sx["k"] == "assign" and sx["rv"]["k"] == "bin" and sx["rv"]["op"] in ("Eq", "Ne")]
+    # (`a == b` on references to chars is a call to PartialEq::eq, on chars a primitive comparison)
+    eq_calls = [t for _, t in f.calls() if _m(t) in ("eq", "ne") and any("char" in f.ty(x)["s"] for x in t["f"].get("targs", []) if isinstance(x, int))]
+    eqs = eqs + eq_calls
     shape = len(mins) == 2 and len(eqs) >= 1
     if bad:
         ck.refuted(rule, "edit_distance_min_alloc:returns", f.loc(bad[0][0]), "a return value of the distance function is %s: for some pairs of words the reported distance is not the Levenshtein distance, so MutableDictionary's fuzzy search drops words that are within the bound (or admits words beyond it) and disagrees with the FST back-end" % bad[0][1])
